@@ -2661,8 +2661,11 @@ func (db *DB) ApplyLTXNoLock(path string, fatalOnError bool) (retErr error) {
 	}
 
 	// Rewrite SHM so that the transaction is visible.
-	if err := db.updateSHM(); err != nil {
-		return fmt.Errorf("update shm: %w", err)
+	// A dropped database has no SHM file so do not recreate it.
+	if dec.Header().Commit > 0 {
+		if err := db.updateSHM(); err != nil {
+			return fmt.Errorf("update shm: %w", err)
+		}
 	}
 
 	// Invalidate entire database if this was a snapshot.
